@@ -8,7 +8,10 @@
 namespace msggen {
 inline std::vector<uint8_t> message(vp::Ctx &c, size_t maxlen, bool zero_free) {
   std::vector<uint8_t> m;
-  while (m.size() < maxlen && c.more()) {
+  // number of runs drawn up front: the message must not eat all case bytes, later draws (splits, schedules) need some
+  size_t nruns = c.weighted({2, 3, 3, 3, 2, 2, 1, 1, 1});
+  if (nruns == 8) nruns = c.range(8, 24);
+  while (m.size() < maxlen && nruns--) {
     size_t kind = c.weighted({4, 3, 2, 2, 1});
     switch (kind) {
       case 0: {  // non-zero run, boundary lengths
